@@ -854,7 +854,8 @@ Record sig_closed0 : Prop := {
   cl_groups : part_closed (P_groups S); cl_kerning : part_closed (P_kerning S);
   cl_lc : part_closed (P_lc S); cl_contents : part_closed (P_contents S);
   cl_li : part_closed (P_li S);
-  meta_wf_norad : forall mi, wf (P_meta S) {| m_creator := Some NORAD_CREATOR; m_version := 3; m_minor := mi |};
+  meta_wf_norad : forall c m, dec (P_meta S) c = Some m ->
+                  wf (P_meta S) {| m_creator := Some NORAD_CREATOR; m_version := 3; m_minor := m_minor m |};
   info_ids_wf : forall c si, dec (P_info S) c = Some si -> forall g, In g (dflt_list (snd si)) ->
                 forall id, snd g = Some id -> wf_key S id;
   info_ok_nodup : forall i : info, info_ok S i = true -> NoDup (some_ids (map g_id (guides_of i))) }.
